@@ -36,6 +36,8 @@
   OBLIGATION c13_keyword_compound
   OBLIGATION c13_number_token
   OBLIGATION c13_string_token
+  OBLIGATION c13_value_partial
+  OBLIGATION c13_arguments_partial
   OPEN c13_full
 -/
 import AGV.Lemmas.ParseC13
@@ -45,6 +47,7 @@ import AGV.Lemmas.ParseC13Block
 import AGV.Lemmas.ParseC13Number
 import AGV.Lemmas.ParseC13PairsWf
 import AGV.Lemmas.PegC13TokSpec
+import AGV.Lemmas.PegC13Val7
 
 namespace AGV.Props.C13
 open AGV.Model.BuildAst AGV.Core.PAst AGV.Lemmas.ParseC13
@@ -425,6 +428,114 @@ theorem c13_string_token (pre s : List Char) (c : Ctx) (hl : c.look = false) (hn
     obtain ⟨tok, rest⟩ := y
     rw [hl] at h
     cases tok <;> exact h
+
+/-- The `value` (`const = false`) and `const_value` (`const = true`) productions — variables,
+    numbers, strings, booleans, null, enum values, lists and objects of any nesting — on EVERY text
+    `t` that begins a token, as part of any document `s₀` at offset `q`: the interpreter over the
+    repaired grammar accepts exactly when the specification's `pValue` reads a `Value[Const]` from
+    the token stream (`toks t`, total: a lexical error is the token `bad`), it leaves the text whose
+    tokens are the specification's remaining tokens, emits one pair starting at `q`, and from that
+    pair the tree builder (`parse_value`) computes the specification's value (object literals as
+    the `IndexMap` they are stored in: `normV`), float literals included (correctly rounded
+    double) — the last for values none of whose float literals denotes the infinite double
+    (`finV`; the parser reports a number error for those); with fuel `24·length + 60`
+    (`parse_query` provides `24·length + 400`).  Partial in one respect: the specification is taken
+    without its finiteness check (`finiteFloats := false`): the specification rejects a value with
+    an infinite float, the interpreter accepts it and the tree builder then fails. -/
+theorem c13_value_partial (const : Bool) (s₀ : List Char) (q : Nat) (t : List Char)
+    (hat : ∃ pre, s₀ = pre ++ t ∧ pre.length = q) (ht : TokStart t) (f : Nat) (hf : 24 * t.length + 60 ≤ f) :
+    match AGV.Spec.Parse.pValue { finiteFloats := false } const ((toks t).length + 1) (toks t) with
+    | some (v, ts') =>
+      ∃ s' pr, eval (grammarFor Defects.none) f {} (.ident (if const then "const_value" else "value")) q t =
+          .ok (q + (t.length - s'.length)) s' [pr] ∧
+        toks s' = ts' ∧ s'.length < t.length ∧ pr.start = q ∧
+        (finV v = true → ∀ bf, s₀.length - q < bf →
+          buildValue ⟨Defects.none, s₀.toArray⟩ bf pr = .ok (normV v))
+    | none => eval (grammarFor Defects.none) f {} (.ident (if const then "const_value" else "value")) q t = .fail := by
+  have key : ∀ F : ValFam, IsFam F →
+      match AGV.Lemmas.SpecVal.pV P' F.const (toks t) with
+      | some (v, ts') =>
+        ∃ s' pr, eval (grammarFor Defects.none) f {} (.ident F.vName) q t = .ok (q + (t.length - s'.length)) s' [pr] ∧
+          toks s' = ts' ∧ s'.length < t.length ∧ pr.start = q ∧
+          (finV v = true → ∀ bf, s₀.length - q < bf →
+            buildValue ⟨Defects.none, s₀.toArray⟩ bf pr = .ok (normV v))
+      | none => eval (grammarFor Defects.none) f {} (.ident F.vName) q t = .fail := by
+    intro F hF
+    obtain ⟨r, hr, hg⟩ := value_main F hF t.length t q (Nat.le_refl _) ht
+    have hg' := hg s₀ hat
+    cases hp : AGV.Lemmas.SpecVal.pV P' F.const (toks t) with
+    | none => simp only []; rw [← hg'.fail hp]; exact hr f hf
+    | some x =>
+      obtain ⟨v, ts'⟩ := x
+      obtain ⟨s', pr, e, h1, h2, -, h3, h4⟩ := hg'.ok hp
+      simp only []
+      refine ⟨s', pr, by rw [← e]; exact hr f hf, h1, h2, h3, fun hnf bf hbf => ?_⟩
+      exact h4 hnf bf (by rw [h3]; exact hbf)
+  cases const with
+  | false => exact key famV (Or.inl rfl)
+  | true => exact key famC (Or.inr rfl)
+
+/-- a non-trivial instance of the hypotheses: a nested constant value inside an argument list -/
+example : (∃ pre, "{a(b:[1, {c: \"x\", d: [true null E]}])}".toList = pre ++ "[1, {c: \"x\", d: [true null E]}])}".toList ∧
+    pre.length = 5) ∧ TokStart "[1, {c: \"x\", d: [true null E]}])}".toList :=
+  ⟨⟨"{a(b:".toList, by decide, by decide⟩, tokStart_cons (by decide) (by decide)⟩
+
+/-- what the specification reads as `Arguments[Const]` (not optional): `(` `Argument+` `)` -/
+def specArguments (const : Bool) (ts : List AGV.Spec.Lex.Tok) :
+    Option (List (AGV.Core.PAst.Name × PValue) × List AGV.Spec.Lex.Tok) :=
+  match ts with
+  | .punct '(' :: r => AGV.Spec.Parse.pArgList { finiteFloats := false } const (r.length + 1) r
+  | _ => none
+
+theorem specArguments_eq (const : Bool) (ts : List AGV.Spec.Lex.Tok) : specArguments const ts = pArgsV const ts := by
+  unfold specArguments pArgsV
+  split
+  · simp [closeTok]; rfl
+  · rename_i hne
+    rw [closeTok_none (fun r e => hne r e)]
+
+/-- The `arguments` / `const_arguments` productions (`"(" ~ argument+ ~ ")"`, each argument
+    `name ":" value`) on EVERY text that begins a token: the interpreter accepts exactly when the
+    specification's `pArgList` (as called by `pOptArgs` after `(`) reads an argument list, leaves
+    the text with the specification's remaining tokens, and `parse_arguments` computes the
+    specification's list of (name, value) from the emitted pair (for values without an infinite
+    float literal, `finFs`; specification without its finiteness check, as in `c13_value_partial`).
+    Fuel `24·length + 40`. -/
+theorem c13_arguments_partial (const : Bool) (s₀ : List Char) (q : Nat) (t : List Char)
+    (hat : ∃ pre, s₀ = pre ++ t ∧ pre.length = q) (ht : TokStart t) (f : Nat) (hf : 24 * t.length + 40 ≤ f) :
+    match specArguments const (toks t) with
+    | some (as, ts') =>
+      ∃ s' pr, eval (grammarFor Defects.none) f {} (.ident (if const then "const_arguments" else "arguments")) q t =
+          .ok (q + (t.length - s'.length)) s' [pr] ∧
+        toks s' = ts' ∧ s'.length < t.length ∧ pr.start = q ∧
+        (finFs as = true → buildArgs ⟨Defects.none, s₀.toArray⟩ pr = .ok (normFs as))
+    | none =>
+      eval (grammarFor Defects.none) f {} (.ident (if const then "const_arguments" else "arguments")) q t = .fail := by
+  have key : ∀ F : ValFam, IsFam F →
+      match pArgsV F.const (toks t) with
+      | some (as, ts') =>
+        ∃ s' pr, eval (grammarFor Defects.none) f {} (.ident (asName F)) q t = .ok (q + (t.length - s'.length)) s' [pr] ∧
+          toks s' = ts' ∧ s'.length < t.length ∧ pr.start = q ∧
+          (finFs as = true → buildArgs ⟨Defects.none, s₀.toArray⟩ pr = .ok (normFs as))
+      | none => eval (grammarFor Defects.none) f {} (.ident (asName F)) q t = .fail := by
+    intro F hF
+    obtain ⟨r, hr, hg⟩ := args_main F hF q t ht
+    have hg' := hg s₀ hat
+    unfold GoodArgs at hg'
+    cases hp : pArgsV F.const (toks t) with
+    | none => rw [hp] at hg'; simp only []; rw [← hg']; exact hr f hf
+    | some x =>
+      obtain ⟨as, ts'⟩ := x
+      rw [hp] at hg'
+      obtain ⟨s', pr, e, h1, h2, -, h3, h4⟩ := hg'
+      simp only []
+      exact ⟨s', pr, by rw [← e]; exact hr f hf, h1, h2, h3, h4⟩
+  rw [specArguments_eq]
+  cases const with
+  | false => exact key famV (Or.inl rfl)
+  | true => exact key famC (Or.inr rfl)
+
+example : TokStart "(a: 1, b: [$v \"s\"] c:{d:E})@x".toList := tokStart_cons (by decide) (by decide)
 
 end Tokens
 
